@@ -170,6 +170,7 @@ class MinPathCover(pathmodel.AbstractPathModelDAG):
         # A (re-)solve starts from scratch: whatever an earlier solve() of this object found is no longer the answer of this run
         self._is_solved = False
         self._solution = None
+        self._lowerbound_k = None
         
         # Without constraints the number of edges is an upper bound on the optimum; every constraint may need one more path/walk
         for i in range(self.get_lowerbound_k(), self.G.number_of_edges() + len(self.subpath_constraints or []) + 1):
